@@ -522,6 +522,7 @@ func c16Kinds(c *Ctx, reader *ssa.Function) {
 		}
 		c.R.Check(rule, "map-entry-present-with-zero-value", rp, readsIt, "a map entry that is present but holds the zero value of the element type (0 in a map[string]int, \"\" in a map[string]string, false) must be read as that value; the reader returns null for it because it treats IsZero() like a missing key")
 	}
+	c.structFieldRules(rule, reader, true)
 	// any other kind: (nil, nil)
 	for _, kn := range kinds {
 		if kn.name == "Map" || kn.name == "Struct" || kn.name == "Invalid" {
@@ -660,6 +661,8 @@ func runC20(c *Ctx) {
 	var idH, litH *ssa.Function
 	if d != nil {
 		idH, litH = d.Handlers["Identifier"], d.Handlers["LiteralExpression"]
+		// locals assigned by a formula are entries of the current data map, stored on every path (null included)
+		c07Binding(c, d, "C20.locals-are-map-entries")
 	}
 	valueOK := map[*ssa.Function]bool{newRunner: true, set: true, get: true}
 	thisStore := map[*ssa.Function]bool{setThis: true, setThisValue: true}
@@ -756,31 +759,7 @@ func runC20(c *Ctx) {
 		return isMake
 	}
 	c.R.Check(rn, "SetThis-replaces", c.P.Pos(setThis.Pos()), !pathExists(setThis, nil, isReturn, replaces, nil), "there is a path through SetThis on which the previous data map is kept (entries of the old map, earlier `$` locals included, survive the replacement)")
-	// SetThisValue: nil -> fresh map, then exactly this[key] = value
-	for _, isNil := range []bool{true, false} {
-		r := c.foldWith(setThisValue, 0, pinNilCompareOfField("this", isNil))
-		made := false
-		var upd *ssa.MapUpdate
-		for _, b := range setThisValue.Blocks {
-			if !r.Reach[b] {
-				continue
-			}
-			for _, in := range b.Instrs {
-				if st, ok := in.(*ssa.Store); ok {
-					if fa, ok := st.Addr.(*ssa.FieldAddr); ok && fieldName(fa) == "this" {
-						if _, ok := st.Val.(*ssa.MakeMap); ok {
-							made = true
-						}
-					}
-				}
-				if mu, ok := in.(*ssa.MapUpdate); ok {
-					upd = mu
-				}
-			}
-		}
-		updOK := upd != nil && upd.Key == ssa.Value(setThisValue.Params[1]) && upd.Value == ssa.Value(setThisValue.Params[2]) && c.isThisMap(upd.Map)
-		c.R.Check(rn, fmt.Sprintf("entry-setter:map-nil=%v", isNil), c.P.Pos(setThisValue.Pos()), made == isNil && updOK, fmt.Sprintf("with the data map nil=%v: creates a map=%v (expected %v), stores exactly (key, value) into it=%v", isNil, made, isNil, updOK))
-	}
+	c.entrySetterRule(rn, setThisValue)
 	// the MapUpdate happens after the creation on every path
 	c.R.Floor(rn, 5)
 
@@ -860,5 +839,157 @@ func pinNilCompareOfField(field string, isNil bool) Pin {
 			return constant.MakeBool(!isNil), true
 		}
 		return constant.MakeBool(isNil), true
+	}
+}
+
+// memberReader finds the function the selector handler reads members with.
+func (c *Ctx) memberReader(d *Dispatcher) *ssa.Function {
+	h := d.Handlers["SelectorExpression"]
+	if h == nil {
+		return nil
+	}
+	node := c.nodeParamOf(h, "SelectorExpression")
+	var reader *ssa.Function
+	instrs(h, func(b *ssa.BasicBlock, i int, in ssa.Instruction) {
+		call, ok := in.(*ssa.Call)
+		if !ok {
+			return
+		}
+		cal := calleeOf(call)
+		if cal == nil || !c.inModule(cal) || cal == d.Fn || len(call.Call.Args) != 2 {
+			return
+		}
+		for _, rt := range plainOrigins.Roots(call.Call.Args[1]) {
+			if rt.Kind == "param" && rt.V == ssa.Value(node) && len(rt.Path) == 2 && rt.Path[0] == "Name" && rt.Path[1] == "Value" {
+				reader = cal
+			}
+		}
+	})
+	return reader
+}
+
+// structFieldRules: the struct arm of the member reader.
+//
+//	present (present=true):  a field that exists is read even when it holds its zero value;
+//	missing (present=false): a field that does not exist is an error (today: Interface() on the invalid
+//	reflect.Value panics and the entry point's recover turns that into the error), never (null, no error).
+func (c *Ctx) structFieldRules(rule string, reader *ssa.Function, present bool) {
+	rp := c.P.Pos(reader.Pos())
+	isNull := c.fn("IsNull")
+	var structKind, invalidKind int64 = -1, 0
+	for _, kn := range reflectKinds(c) {
+		if kn.name == "Struct" {
+			structKind = kn.val
+		}
+	}
+	if structKind < 0 {
+		c.R.Undecided(rule, "struct-kind", rp, "reflect.Struct not found")
+		return
+	}
+	// a reflect.Value that came out of a field lookup
+	fromField := func(v ssa.Value) bool {
+		for _, rt := range plainOrigins.Roots(v) {
+			if rt.Kind == "call" && rt.Fn != nil {
+				switch rt.Fn.String() {
+				case "(reflect.Value).FieldByName", "(reflect.Value).FieldByIndex", "(reflect.Value).Field", "(reflect.Value).FieldByNameFunc":
+					return true
+				}
+			}
+		}
+		return false
+	}
+	recvOf := func(call *ssa.Call) ssa.Value {
+		if len(call.Call.Args) > 0 {
+			return call.Call.Args[0]
+		}
+		return nil
+	}
+	onField := func(call *ssa.Call) bool { r := recvOf(call); return r != nil && fromField(r) }
+	notOnField := func(call *ssa.Call) bool { return !onField(call) }
+	fieldKind := cInt(invalidKind)
+	if present {
+		fieldKind = cInt(2) // reflect.Int: any valid kind
+	}
+	ps := []Pin{pinCallFn(isNull, cFalse, nil),
+		pinCall("(reflect.Value).Kind", fieldKind, onField),
+		pinCall("(reflect.Value).Kind", cInt(structKind), notOnField),
+		pinCall("Kind", cInt(structKind), func(call *ssa.Call) bool { return call.Call.IsInvoke() }),
+		pinCall("(reflect.Value).IsValid", boolConst(present), onField),
+		pinCall("(reflect.Value).IsValid", cTrue, notOnField),
+		pinCall("(reflect.Value).IsZero", cTrue, onField),
+		pinCall("(reflect.Value).IsNil", cFalse, nil),
+		// (reflect.Type).FieldByName reports presence in its second result
+		func(v ssa.Value) (constant.Value, bool) {
+			ex, ok := v.(*ssa.Extract)
+			if !ok || ex.Index != 1 {
+				return nil, false
+			}
+			call, ok := ex.Tuple.(*ssa.Call)
+			if !ok || call.Call.Method == nil || !strings.HasPrefix(call.Call.Method.Name(), "FieldByName") {
+				return nil, false
+			}
+			return boolConst(present), true
+		}}
+	r := c.foldWith(reader, 0, ps...)
+	if present {
+		readsIt := len(r.Returns) > 0
+		for _, ret := range r.Returns {
+			if isNilConst(ret.Results[0]) {
+				readsIt = false
+			}
+		}
+		c.R.Check(rule, "struct-field-present-with-zero-value", rp, readsIt, "a struct field that exists but holds its zero value (0, \"\", false) must be read as that value, not as null")
+		return
+	}
+	// missing: no path to a (x, nil-error) return that avoids the panicking Interface() on the looked-up field
+	isIface := func(in ssa.Instruction) bool {
+		call, ok := in.(*ssa.Call)
+		if !ok {
+			return false
+		}
+		cal := calleeOf(call)
+		return cal != nil && cal.String() == "(reflect.Value).Interface" && onField(call)
+	}
+	okRet := func(in ssa.Instruction) bool {
+		ret, ok := in.(*ssa.Return)
+		return ok && len(ret.Results) == 2 && isNilConst(ret.Results[1])
+	}
+	silent := len(reader.Blocks) > 0 && pathExistsIn(r, nil, okRet, isIface)
+	c.R.Check(rule, "struct-field-missing-is-error", rp, !silent, "reading a struct field that does not exist must end in an error (the invalid reflect.Value's Interface() panics and Resolve reports it); there is a path that returns (value, no error) for a missing field, so a misspelt field silently reads as null")
+}
+
+// entrySetterRule: SetThisValue creates the data map when it is nil and then stores exactly (key, value), on every path.
+func (c *Ctx) entrySetterRule(rn string, setThisValue *ssa.Function) {
+	// SetThisValue: nil -> fresh map, then exactly this[key] = value
+	for _, isNil := range []bool{true, false} {
+		r := c.foldWith(setThisValue, 0, pinNilCompareOfField("this", isNil))
+		made := false
+		var upd *ssa.MapUpdate
+		for _, b := range setThisValue.Blocks {
+			if !r.Reach[b] {
+				continue
+			}
+			for _, in := range b.Instrs {
+				if st, ok := in.(*ssa.Store); ok {
+					if fa, ok := st.Addr.(*ssa.FieldAddr); ok && fieldName(fa) == "this" {
+						if _, ok := st.Val.(*ssa.MakeMap); ok {
+							made = true
+						}
+					}
+				}
+				if mu, ok := in.(*ssa.MapUpdate); ok {
+					upd = mu
+				}
+			}
+		}
+		updOK := upd != nil && upd.Key == ssa.Value(setThisValue.Params[1]) && upd.Value == ssa.Value(setThisValue.Params[2]) && c.isThisMap(upd.Map)
+		if updOK && len(setThisValue.Blocks) > 0 {
+			// ... on every path: no value (null included) is silently not stored, or an earlier entry would survive
+			isUpd := func(in ssa.Instruction) bool { _, ok := in.(*ssa.MapUpdate); return ok }
+			if pathExistsIn(r, nil, isReturn, isUpd) {
+				updOK = false
+			}
+		}
+		c.R.Check(rn, fmt.Sprintf("entry-setter:map-nil=%v", isNil), c.P.Pos(setThisValue.Pos()), made == isNil && updOK, fmt.Sprintf("with the data map nil=%v: creates a map=%v (expected %v), stores exactly (key, value) into it on every path=%v", isNil, made, isNil, updOK))
 	}
 }
